@@ -134,13 +134,13 @@ def build(verbose=False, need_race=True):
                         shutil.copy(os.path.join(hm, f), os.path.join(src, "cmd/hidi", "zz_verif_" + f))
             # build workers
             run([GO, "vet", "-vettool=/bin/true", "./verifsim/..."], cwd=src, what="typecheck") if False else None
-            run([GO, "test", "-c", "-o", os.path.join(out, "worlds.test"), "./verifsim/worlds"], cwd=src,
+            run([GO, "test", "-vet=off", "-c", "-o", os.path.join(out, "worlds.test"), "./verifsim/worlds"], cwd=src,
                 what="build worlds")
             if need_race:
-                run([GO, "test", "-race", "-c", "-o", os.path.join(out, "worlds_race.test"), "./verifsim/worlds"],
+                run([GO, "test", "-vet=off", "-race", "-c", "-o", os.path.join(out, "worlds_race.test"), "./verifsim/worlds"],
                     cwd=src, what="build worlds (-race)")
             if os.path.isdir(hm):
-                run([GO, "test", "-c", "-o", os.path.join(out, "hidimain.test"), "./cmd/hidi"], cwd=src,
+                run([GO, "test", "-vet=off", "-c", "-o", os.path.join(out, "hidimain.test"), "./cmd/hidi"], cwd=src,
                     what="build hidimain")
             if os.environ.get("VERIF_KEEP_SCRATCH"):
                 keep = os.environ["VERIF_KEEP_SCRATCH"]
